@@ -256,7 +256,7 @@ def auxiliary_data(serdes, state):
     ### for i in range(1, state["next_parse_offset"]-12):
     ###     read_uint_lit(state, 1)
     ## Begin not in spec
-    serdes.bytes("bytes", state["next_parse_offset"] - PARSE_INFO_HEADER_BYTES)
+    serdes.bytes("bytes", max(0, state["next_parse_offset"] - PARSE_INFO_HEADER_BYTES))
     ## End not in spec
 
 
@@ -267,7 +267,7 @@ def padding(serdes, state):
     ### for i in range(1, state["next_parse_offset"]-12):
     ###     read_uint_lit(state, 1)
     ## Begin not in spec
-    serdes.bytes("bytes", state["next_parse_offset"] - PARSE_INFO_HEADER_BYTES)
+    serdes.bytes("bytes", max(0, state["next_parse_offset"] - PARSE_INFO_HEADER_BYTES))
     ## End not in spec
 
 
